@@ -125,6 +125,10 @@ E2E_CALLS = [
     ("B22", "B22", "", [("x1", "<==", "a"), ("x2", "<==", "b")], False),
     ("B22named", "B22", "", [("x2", "<==", "b"), ("x1", "<==", "a")], True),
     ("B23", "B23", "", [("x1", "<==", "a"), ("x2", "<==", "b * c")], False),
+    ("A2expr", "A2", "", [("x1", "<==", "a * b"), ("x2", "<==", "c + 1")], False),
+    ("A3named", "A3", "", [("x1", "<==", "a"), ("x2", "<--", "b"), ("x3", "<==", "c")], True),
+    ("P1named", "P1", "n", [("x1", "<==", "a + b")], True),
+    ("B12named", "B12", "", [("x1", "<--", "a")], True),
 ]
 
 # positions: (label, number of values consumed, sugared statement with {S}, expansion with {V0} {V1} {V2};
@@ -148,6 +152,16 @@ E2E_POS = [
     ("loop2", 2, "for (var i = 0; i < 2; i++) {{ (arr[i], arr2[i][0]) <== {S}; }}",
      "for (var i = 0; i < 2; i++) {{ {P} arr[i] <== {V0}; arr2[i][0] <== {V1}; }}", "i"),
     ("tuple_mix", 1, "(o, p) <== ({S}, b);", "o <== {V0}; p <== b;", None),
+    ("else_body", 1, "if (n == 0) {{ o <== a; }} else {{ o <== {S}; }}",
+     "if (n == 0) {{ o <== a; }} else {{ {P} o <== {V0}; }}", "inner"),
+    ("block", 1, "{{ o <== {S}; }}", "{{ {P} o <== {V0}; }}", "inner"),
+    ("arr0", 1, "arr[0] <== {S};", "arr[0] <== {V0};", None),
+    ("decl_s2", 1, "signal x <-- {S};", "signal x; x <-- {V0};", None),
+    ("msub2rev", 2, "{S} ==> (o, p);", "o <== {V0}; p <== {V1};", None),
+    ("msub3u", 3, "(_, p, _) <== {S};", "p <== {V1};", None),
+    ("while", 1, "while (v < 2) {{ arr[v] <== {S}; v++; }}", "while (v < 2) {{ {P} arr[v] <== {V0}; v++; }}", "v"),
+    ("loop_if", 1, "for (var i = 0; i < 2; i++) {{ if (i == 0) {{ arr[i] <== {S}; }} }}",
+     "for (var i = 0; i < 2; i++) {{ if (i == 0) {{ {P} arr[i] <== {V0}; }} }}", "i"),
 ]
 
 E2E_TUPLES = [  # pure tuple statements and their expansions
@@ -195,12 +209,12 @@ def e2e_pairs():
             call_args = ", ".join(("%s %s %s" % a) if named else a[2] for a in args)
             s_text = "%s(%s)(%s)" % (tname, params, call_args)
             byname = {a[0]: a for a in args}
-            idx = "[i]" if where == "i" else ""
+            idx = "[%s]" % where if where in ("i", "v") else ""
             comp = "cx" + idx
             prelude = "%s = %s(%s); " % (comp, tname, params) + " ".join(
                 "%s.%s %s %s;" % (comp, i, byname[i][1], byname[i][2]) for i in ins)
             vals = {"V%d" % k: "%s.%s" % (comp, o) for k, o in enumerate(outs)}
-            decl = "component cx%s;" % ("[2]" if where == "i" else "")
+            decl = "component cx%s;" % ("[2]" if where in ("i", "v") else "")
             if where is None:
                 body_exp = prelude + " " + exp.format(**vals)
             else:
@@ -449,7 +463,7 @@ def run(ctx, proofs):
 
 OPEN = [
     {"name": "C18_desugar_never_panics_full_statement",
-     "reason": "needs the invariants 'every meta has a file id known to the library', 'log strings <= 230 bytes', 'declarations returned by pass 1 "
+     "reason": "partially proved (C18_pass2_unreachable_never_fires: the unreachable!() and remove(0) sites of pass 2 never fire); the full statement needs the invariants 'every meta has a file id known to the library', 'log strings <= 230 bytes', 'declarations returned by pass 1 "
                "are Declaration/Substitution' carried through both passes; not closed in the time box; observed: no panic on any explored program"},
     {"name": "C18_desugar_refines_expand_full_statement", "reason": "refinement proof not attempted in the time box; observed equal on every accepted template of the matrix"},
     {"name": "C18_desugar_errors_exact_full_statement", "reason": "not attempted; the report sets are compared exactly by the correspondence run"},
@@ -472,6 +486,14 @@ def replay(ctx, rep):
         return 0 if r[3] == r[4] and r[3] is not None else 1
     recs = evaluate(ctx, HARNESS_BIN, MODEL_BIN, [("replay", src)])
     f = judge(recs[0])
+    if "impl" in recs[0] and recs[0]["impl"]["POST"] != "panic":
+        post = {n: t for k, n, t in split_defs(recs[0]["impl"]["POST"]) if k == "T"}
+        spec = {n: t for k, n, t in split_defs(recs[0]["spec"].get("POST", ""))}
+        for n in sorted(set(post) | set(spec)):
+            if post.get(n) != spec.get(n):
+                f.append("template `%s`: implementation %s, expand_spec %s" % (
+                    n, "accepts" if n in post else "rejects", "gives a different expansion" if n in post and n in spec
+                    else ("accepts" if n in spec else "rejects")))
     print("implementation:", (recs[0].get("impl") or {}).get("POST", recs[0].get("parse"))[-800:])
     print("reports       :", (recs[0].get("impl") or {}).get("REP"))
     print("pipeline      :", (recs[0].get("impl") or {}).get("PIPE"))
